@@ -15,7 +15,8 @@ from common import (Machinery, run_tlc, need_ok, run_cases, scratch,
 import pool as poolmod
 
 BASE = {'A': 1000, 'B': 2000, 'C': 3000}
-KINDS = ['netcdf', 'ioapi', 'pncopen', 'save']
+KINDS = ['netcdf', 'ioapi', 'pncopen', 'save', 'netcdf_rw', 'netcdf_a',
+         'pncopen_rw']
 
 
 def _ctor(kind, path, o, tid=0):
@@ -23,6 +24,15 @@ def _ctor(kind, path, o, tid=0):
     if kind == 'netcdf':
         from PseudoNetCDF.core._files import netcdf
         return netcdf(path)
+    if kind in ('netcdf_rw', 'netcdf_a', 'pncopen_rw'):
+        # writable handles, each on a private copy of the file
+        own = '%s.%d.rw.nc' % (path, tid)
+        shutil.copyfile(path, own)
+        mode = 'a' if kind == 'netcdf_a' else 'r+'
+        if kind == 'pncopen_rw':
+            return pnc.pncopen(own, format='netcdf', mode=mode)
+        from PseudoNetCDF.core._files import netcdf
+        return netcdf(own, mode=mode)
     if kind == 'ioapi':
         from PseudoNetCDF.cmaqfiles import ioapi
         return ioapi(path)
